@@ -667,3 +667,4 @@ seed('c02-pdst-closest-before-solved', 'C02', [(CPDST, "        if (hasSolution)
 seed('c05-discrete-scratch-copied-unwritten', 'C05', [(DMV, "    if (nd > 1)\n    {\n        /* temporary storage for the checked state */\n        State *test = si_->allocState();\n\n        for (int j = 1; j < nd; ++j)\n        {\n            stateSpace_->interpolate(s1, s2, (double)j / (double)nd, test);\n            if (!si_->isValid(test))\n            {\n                lastValid.second = (double)(j - 1) / (double)nd;\n                if (lastValid.first != nullptr)\n                    stateSpace_->interpolate(s1, s2, lastValid.second, lastValid.first);\n                result = false;\n                break;\n            }\n        }\n        si_->freeState(test);\n    }\n\n    if (result)\n        if (!si_->isValid(s2))\n        {\n            lastValid.second = (double)(nd - 1) / (double)nd;\n            if (lastValid.first != nullptr)\n                stateSpace_->interpolate(s1, s2, lastValid.second, lastValid.first);\n            result = false;\n        }\n", "    State *test = si_->allocState();\n    if (nd > 1)\n    {\n        for (int j = 1; j < nd; ++j)\n        {\n            stateSpace_->interpolate(s1, s2, (double)j / (double)nd, test);\n            if (!si_->isValid(test))\n            {\n                lastValid.second = (double)(j - 1) / (double)nd;\n                if (lastValid.first != nullptr)\n                    stateSpace_->interpolate(s1, s2, lastValid.second, lastValid.first);\n                result = false;\n                break;\n            }\n        }\n    }\n\n    if (result)\n        if (!si_->isValid(s2))\n        {\n            lastValid.second = (double)(nd - 1) / (double)nd;\n            if (lastValid.first != nullptr)\n                si_->copyState(lastValid.first, test);\n            result = false;\n        }\n    si_->freeState(test);\n")], 'R05f')
 seed('c14-dubins-reverse-loop-skips-first-segment', 'C14', [(DUB, "        for (unsigned int i = 0; i < 3 && seg > 0; ++i)\n        {\n            v = std::min(seg, path.length_[2 - i]);\n            phi = s->getYaw();\n            seg -= v;\n            switch (path.type_->at(2 - i))", "        for (unsigned int i = 2; i > 0 && seg > 0; --i)\n        {\n            v = std::min(seg, path.length_[i]);\n            phi = s->getYaw();\n            seg -= v;\n            switch (path.type_->at(i))")], 'R14d')
 seed('c14-n-dubins-reverse-loop-counts-down', 'C14', [(DUB, "        for (unsigned int i = 0; i < 3 && seg > 0; ++i)\n        {\n            v = std::min(seg, path.length_[2 - i]);\n            phi = s->getYaw();\n            seg -= v;\n            switch (path.type_->at(2 - i))", "        for (unsigned int i = 3; i > 0 && seg > 0; --i)\n        {\n            v = std::min(seg, path.length_[i - 1]);\n            phi = s->getYaw();\n            seg -= v;\n            switch (path.type_->at(i - 1))")], None)
+seed('c04-n-aitstar-registry-before-snapshot', 'C04', [(AITC, "                    // Remember the incumbent cost.\n                    solutionCost_ = goal->getCostToComeFromStart();", "                    // Remember the incumbent cost.\n                    const bool hadExact = pdef_->hasExactSolution();\n                    solutionCost_ = goal->getCostToComeFromStart();\n                    if (!hadExact)\n                        OMPL_DEBUG(\"first exact solution\");", 0)], None)
